@@ -8,8 +8,8 @@ package main
 // K actions is executed on the real handler + session.
 
 import (
-	"github.com/b2broker/simplefix-go/storages/memory"
 	"fmt"
+	"github.com/b2broker/simplefix-go/storages/memory"
 	"sort"
 	"time"
 
@@ -20,7 +20,7 @@ import (
 
 type gact struct {
 	AtMs int64 `json:"at_ms"`
-	Kind int   `json:"kind"` // 1 application send, 2 inbound Heartbeat, 3 inbound application message, 4 inbound ResendRequest(1,0), 5 inbound retransmission (PossDupFlag=Y, an old number)
+	Kind int   `json:"kind"` // 1 application send, 2 inbound Heartbeat, 3 inbound application message, 4 inbound ResendRequest(1,0), 5 inbound retransmission (PossDupFlag=Y, an old number), 6 inbound TestRequest
 }
 
 type gridCase struct {
@@ -121,6 +121,10 @@ func gridRun(c gridCase) (o gridObs, sig, detail string) {
 			// a message the peer sends again (PossDupFlag=Y, the number it had the first time): inbound traffic like any other
 			o.inAt = append(o.inAt, vsched.NowOffset())
 			w.h.ServeIncoming(rawFrom(w.peer, w.self, "D", 1, "43=Y", "11=again"))
+		case 6:
+			// a TestRequest of the peer: inbound traffic, and the Heartbeat that answers it is outbound traffic like any other
+			o.inAt = append(o.inAt, vsched.NowOffset())
+			w.h.ServeIncoming(w.msg("1", "112=probe"))
 		case 4:
 			// the retransmissions it draws are outbound traffic like any other
 			o.inAt = append(o.inAt, vsched.NowOffset())
@@ -477,9 +481,9 @@ func runGrid(R *vlib.Out, prop string) {
 		"C09": {"quick": {1, 20, 40}, "thorough": {1, 5, 20, 39, 40, 60}},
 	}[prop][*vlib.Tier]
 	maxActs := 2
-	kindsOf := []int{1, 2, 3}
+	kindsOf := []int{1, 2, 3, 6}
 	if prop == "C08" {
-		kindsOf = []int{1, 2, 3, 4}
+		kindsOf = []int{1, 2, 3, 4, 6}
 	}
 	nKinds := len(kindsOf)
 	R.Bounds["N"] = fmt.Sprint(Ns)
@@ -513,7 +517,7 @@ func runGrid(R *vlib.Out, prop string) {
 				}
 				for gi := start; gi < len(g); gi++ {
 					for k := 1; k <= nKinds; k++ {
-						if !rec(gi+1, append(append([]gact{}, acts...), gact{g[gi], k}), max, g) {
+						if !rec(gi+1, append(append([]gact{}, acts...), gact{g[gi], kindsOf[k-1]}), max, g) {
 							return false
 						}
 					}
